@@ -36,6 +36,15 @@ type C08Sc struct {
 	NilBP    bool          `json:"nil_bp"`
 	Events   []world.Event `json:"events"` // AtTick / OnRet events fire by themselves; others are raised by a "raise" host op
 	Host     []HostOp      `json:"host"`
+	// BPEdits: a device callback edits cpu.BreakPoints from inside an access while Run executes
+	BPEdits []C08BPEdit `json:"bp_edits,omitempty"`
+}
+
+// C08BPEdit is a breakpoint edit made by a device callback at a tick.
+type C08BPEdit struct {
+	AtTick  uint64   `json:"at_tick"`
+	Replace bool     `json:"replace"` // clear the existing map first (true) or only add to it; always in place
+	Set     []uint16 `json:"set"`
 }
 
 type c08 struct{}
@@ -119,6 +128,16 @@ func (c08) Gen(r *world.Rng, tier string, n int) interface{} {
 	}
 	if len(sc.BP) == 0 {
 		sc.NilBP = r.Bool()
+	}
+	if sc.Family == "structured" && r.Chance(1, 4) {
+		a := instrAddrs(&sc.Prog)
+		for i := r.Range(1, 2); i > 0; i-- {
+			e := C08BPEdit{AtTick: uint64(r.Range(1, 600)), Replace: r.Bool()}
+			for k := r.Range(0, 2); k > 0; k-- {
+				e.Set = append(e.Set, a[r.Intn(len(a))])
+			}
+			sc.BPEdits = append(sc.BPEdits, e)
+		}
 	}
 	// host script
 	nops := r.Range(1, 8)
@@ -279,7 +298,30 @@ func (c08) Exec(sci interface{}, env *Env) *Violation {
 	}
 	rn, _ := c08New(sc)
 	var budget uint64
+	edit := func(m *world.Machine) {
+		for _, e := range sc.BPEdits {
+			if e.AtTick != m.Bus.Tick {
+				continue
+			}
+			// in place only: whether Run must notice a *replaced* map value while it is
+			// executing is not something the statement settles (a Run that reads the
+			// field once at entry is a legitimate reading), so that is not generated
+			if m.CPU.BreakPoints == nil {
+				continue
+			}
+			if e.Replace {
+				for k := range m.CPU.BreakPoints {
+					delete(m.CPU.BreakPoints, k)
+				}
+			}
+			for _, a := range e.Set {
+				m.CPU.BreakPoints[a] = struct{}{}
+			}
+		}
+	}
+	tw.Hook = func(m *world.Machine, a world.Acc) { edit(m) }
 	rn.Hook = func(m *world.Machine, a world.Acc) {
+		edit(m)
 		if budget != 0 && m.Bus.Tick > budget {
 			budget = 0
 			panic(&overrun{m.Bus.Tick})
@@ -425,6 +467,11 @@ func (c08) Shrink(sci interface{}, _ *Violation) []interface{} {
 	for i := range sc.BP {
 		n := Clone(p, sc).(*C08Sc)
 		n.BP = append(n.BP[:i], n.BP[i+1:]...)
+		out = append(out, n)
+	}
+	for i := range sc.BPEdits {
+		n := Clone(p, sc).(*C08Sc)
+		n.BPEdits = append(n.BPEdits[:i], n.BPEdits[i+1:]...)
 		out = append(out, n)
 	}
 	for ci := range sc.Prog.Code {
